@@ -10,6 +10,7 @@ pub mod lab;
 pub mod rtlab;
 
 pub use driver::{run_property, Ctx, Property, Tier};
+pub use serde_json;
 pub use serde_json::{json, Value};
 
 use std::hash::{Hash, Hasher};
